@@ -580,10 +580,11 @@ def callOf (ord : List String → Nat) (s : CliSpec) (b : Ns) : Except PErr Buil
   | .ok t => (liftE (instantiate (namespaceOf s b) t)).map .call
 
 /-- a guard or an argument that cannot be evaluated because a single-argument option holds the empty list instead
-of a number: the helpers' guards compare it with an integer (`[] > 2`), which raises TypeError -/
+of a number: the helpers' guards compare it with an integer (`[] > 2`), which raises TypeError — and `cli()` reports a
+TypeError of `build_formula` / `transform_cnf` as a CLIError (`except (CLIError, ValueError, TypeError)`) -/
 def quirkCrash (s : CliSpec) (b : Ns) (r : Except PErr Built) : Except PErr Built :=
   match r with
-  | .error (.unsupported w) => if hasQuirk s b then .error (.crash "TypeError") else .error (.unsupported w)
+  | .error (.unsupported w) => if hasQuirk s b then .error .cliError else .error (.unsupported w)
   | r => r
 
 def dispatchSpecX (tool : String) (ord : List String → Nat) (s : CliSpec) (argv : List String) :
